@@ -43,6 +43,7 @@ THEOREMS = [
     "PyTrie.Props.Free.np_cache_consistent_on_entry",
     "PyTrie.Props.Free.np_view_complete_batch_op",
     "PyTrie.Props.Free.np_complete_after_commit",
+    "PyTrie.Props.Free.history_lockstep",
 ]
 RULE = ("prior history, then squash_changes blocks with every exit kind: normal, an exception after n of the "
         "block's operations (every n), and - for non-pruning tries - the n-th database write of the commit failing "
